@@ -721,8 +721,9 @@ impl DB {
             }
         }
 
-        drop(db_lock);
-
+        // The lock file is unlinked while the lock is still held. Releasing the lock first would
+        // let another opener lock the file right before it disappears; the opener after that one
+        // would then create a new lock file and open the database a second time.
         log::info!("Deleting database lock file.");
         if let Err(io_err) = fs.remove_file(&file_name_handler.get_lock_file_path()) {
             log::error!(
@@ -732,6 +733,8 @@ impl DB {
 
             return Err(RainDBError::Destruction(io_err.to_string()));
         }
+
+        drop(db_lock);
 
         if let Some(deletion_err) = maybe_deletion_err {
             return Err(RainDBError::Destruction(deletion_err.to_string()));
